@@ -25,6 +25,7 @@ type replicaOpts struct {
 	clock           string // "" real | "behind" (virtual clock decades before chain time) | "ahead"
 	junkTransient   bool
 	extraPersistent bool
+	firstStart      bool // the process that ran InitChain (never restarted), not one that restarted later
 }
 
 // replayLog executes the recorded blocks on a fresh node and returns the digest per height.
@@ -37,7 +38,11 @@ func (s *Sim) replayLog(name string, o replicaOpts) (out map[int64]string, panic
 			}
 		}()
 		n := NewNode(s.cfg, name, NewDisks(), 0, nil)
-		n.InitChain()
+		if o.firstStart {
+			n.InitChainFirstStart()
+		} else {
+			n.InitChain()
+		}
 		junk := func(tag string) {
 			if !o.junkTransient {
 				return
@@ -159,7 +164,10 @@ func (s *Sim) endOfRun() {
 		s.compareReplica("C12", "replica-diverged", "wall-clock-behind-chain-time", plain, behind, pp, bp)
 		ahead, hp := s.replayLog("plain", replicaOpts{clock: "ahead"})
 		s.compareReplica("C12", "replica-diverged", "wall-clock-ahead-of-chain-time", plain, ahead, pp, hp)
-		s.res.ProbeN("replica_variants", 3)
+		// the process that ran InitChain and was never restarted against one that restarted
+		first, fp := s.replayLog("plain", replicaOpts{firstStart: true})
+		s.compareReplica("C12", "replica-diverged", "first-process-never-restarted", plain, first, pp, fp)
+		s.res.ProbeN("replica_variants", 4)
 	case "C06":
 		junk, jp := s.replayLog("plain", replicaOpts{junkTransient: true})
 		s.compareReplica("C06", "transient-writes-changed-app-hash", "extra-transient-writes", plain, junk, pp, jp)
